@@ -211,7 +211,7 @@ func c16Collisions[K any](kt c16Key[K], r *hx.Rand, n, want int) [][2]*Val {
 // fixed corpus of colliding keys (FNV-1a 32 with the pinned constants; found offline with the search above); it is re-validated
 // at start-up and merely counted when it no longer collides
 var c16CorpusTlong = [][2]int64{{838517077, 149557353}, {232280449, 101450477}, {823332890, 242327870}, {5549191, 770199891}, {33278115, 404036423}, {387495376, 890720490}}
-var c16CorpusTstr = [][2]string{{"739qkv:", " uzs52"}, {"%+1:hl", "9f('89b"}, {"fti3:w", "25 718"}, {"xtqby%o", "+)lm(%"}, {"lzdf ll", "6yoiwx"}, {" +7:fj", "v2gduj"}}
+var c16CorpusTstr = [][2]string{{"costarring", "liquid"}, {"739qkv:", " uzs52"}, {"%+1:hl", "9f('89b"}, {"fti3:w", "25 718"}, {"xtqby%o", "+)lm(%"}, {"lzdf ll", "6yoiwx"}, {" +7:fj", "v2gduj"}}
 
 // ---- observation
 type c16Obs struct {
@@ -223,6 +223,7 @@ type c16Obs struct {
 	Type    string       `json:"type"`
 	Mode    string       `json:"mode"`
 	Note    string       `json:"note,omitempty"`
+	MapAdd  string       `json:"mapAdd,omitempty"` // AddAllMapKeys over a map keyed by the (pointer) keys: "error" | "ok" | "" (not observed)
 }
 type c16Probe struct {
 	Key   *Val `json:"key"`
@@ -636,6 +637,34 @@ func c16Replies[K any](kt c16Key[K], r *hx.Rand, vals []*Val, extra []*Val) []c1
 		out = append(out, c16Reply{Kind: "unknown-member", Fields: []string{"results", "other"}, Entries: [][]c16Entry{all(), {{Raw: "zz", Tag: 1}}}})
 	}
 	out = append(out, c16Reply{Kind: "no-results", Fields: []string{"statuses"}, Entries: [][]c16Entry{all()}})
+	// an UNREQUESTED key whose hash collides with a requested key's, in each of the three maps
+	nStr := 0
+	for _, x := range extra {
+		collides, known := false, false
+		for _, v := range vals {
+			if kt.keyEq(v, x) {
+				known = true
+			} else if kt.hash != nil && kt.hash(kt.build(v)) == kt.hash(kt.build(x)) {
+				collides = true
+			}
+		}
+		if known || !collides || nStr >= 2 {
+			continue
+		}
+		nStr++
+		for _, f := range []string{"results", "statuses", "errors"} {
+			es := all()
+			pos := r.Intn(len(es) + 1)
+			es = append(es[:pos:pos], append([]c16Entry{ent(x)}, es[pos:]...)...)
+			if f == "results" {
+				out = append(out, c16Reply{Kind: "colliding-stranger:" + f, Fields: []string{"results"}, Entries: [][]c16Entry{es}})
+			} else {
+				out = append(out, c16Reply{Kind: "colliding-stranger:" + f, Fields: []string{"results", f}, Entries: [][]c16Entry{all(), es}})
+			}
+		}
+		// and alone (the reply names only the stranger)
+		out = append(out, c16Reply{Kind: "colliding-stranger:alone", Fields: []string{"results"}, Entries: [][]c16Entry{{ent(x)}}})
+	}
 	// superset: one unknown key
 	for _, x := range extra {
 		known := false
@@ -750,8 +779,15 @@ func c16Coq[K any](kt c16Key[K], o *c16Obs) string {
 		}
 		replies = append(replies, "(["+strings.Join(fields, ";")+"], "+obs+")")
 	}
-	return fmt.Sprintf("{| c_kind := %d; c_hty := %s; c_ty := %s; c_floats := %s; c_parse := %s;\n c_keys := %s; c_add := %s; c_ids := %s;\n c_probes := [%s];\n c_replies := [%s] |}",
-		kt.kind, c10Ty(kt.t), c16CodecTy(kt.name, kt.t), coqFloats(fl), coqParseTable(texts), coqVals(o.Keys), add, hx.CoqBytes(o.Ids),
+	mapAdd := "None"
+	switch o.MapAdd {
+	case "ok":
+		mapAdd = "(Some false)"
+	case "error":
+		mapAdd = "(Some true)"
+	}
+	return fmt.Sprintf("{| c_kind := %d; c_hty := %s; c_ty := %s; c_floats := %s; c_parse := %s;\n c_keys := %s; c_add := %s; c_mapadd := %s; c_ids := %s;\n c_probes := [%s];\n c_replies := [%s] |}",
+		kt.kind, c10Ty(kt.t), c16CodecTy(kt.name, kt.t), coqFloats(fl), coqParseTable(texts), coqVals(o.Keys), add, mapAdd, hx.CoqBytes(o.Ids),
 		strings.Join(probes, ";"), strings.Join(replies, ";\n  "))
 }
 
@@ -796,6 +832,22 @@ func c16Scenario[K any](kt c16Key[K], r *hx.Rand, coll [][2]*Val, special [][]*V
 	if i < len(special) {
 		vals = special[i]
 		note = "special"
+	} else if j := i - len(special); j < 2*len(coll) {
+		// ONE member of a colliding pair is requested (alone in its hash bucket), the other is a stranger
+		vals = []*Val{coll[j/2][j%2]}
+		for k := r.Intn(3); k > 0; k-- {
+			v := c16Gen(kt, r)
+			if !kt.keyEq(v, coll[j/2][0]) && !kt.keyEq(v, coll[j/2][1]) && !kt.keyEq(v, vals[len(vals)-1]) && (len(vals) < 2 || !kt.keyEq(v, vals[0])) {
+				if r.Bool() {
+					vals = append(vals, v)
+				} else {
+					vals = append([]*Val{v}, vals...)
+				}
+			}
+		}
+		extra = append(extra, coll[j/2][1-j%2])
+		probes = append(probes, coll[j/2][1-j%2])
+		note = "lone-colliding"
 	} else {
 		n := r.Intn(6)
 		if kt.name == "bool" {
@@ -876,13 +928,20 @@ func c16Scenario[K any](kt c16Key[K], r *hx.Rand, coll [][2]*Val, special [][]*V
 }
 
 func c16RunSet[K any](kt c16Key[K], r *hx.Rand, rep *hx.Report, sh *hx.Shards, n int, special [][]*Val,
-	replyPart func(obs *c16Obs, set batchkeyset.BatchKeySet[K], origs []K, replies []c16Reply)) {
+	replyPart func(obs *c16Obs, set batchkeyset.BatchKeySet[K], origs []K, replies []c16Reply), mapPart func(obs *c16Obs)) {
 	coll := c16Collisions(kt, r, 250000, 4)
 	rep.CountN("colliding-pairs:"+kt.name, len(coll))
-	for i := 0; i < n+len(special); i++ {
+	lone := 2 * len(coll)
+	if c16Replaying {
+		coll, lone = nil, 0
+	}
+	for i := 0; i < n+len(special)+lone; i++ {
 		vals, probes, extra, note := c16Scenario(kt, r, coll, special, i)
 		obs, set, origs, ok := c16SetPart(kt, vals, probes, rep)
 		obs.Note = note
+		if mapPart != nil {
+			mapPart(&obs)
+		}
 		if ok && replyPart != nil {
 			replyPart(&obs, set, origs, c16Replies(kt, r, vals, extra))
 		}
@@ -891,6 +950,12 @@ func c16RunSet[K any](kt c16Key[K], r *hx.Rand, rep *hx.Report, sh *hx.Shards, n
 		rep.Count(fmt.Sprintf("add-rejected=%v", obs.Add >= 0))
 		if strings.Contains(note, "colliding") {
 			rep.Count("with-colliding-keys")
+		}
+		if note == "lone-colliding" {
+			rep.Count("lone-colliding-scenarios")
+		}
+		if obs.MapAdd != "" {
+			rep.Count("addallmapkeys=" + obs.MapAdd)
 		}
 		nt := strings.Contains(note, "colliding") || strings.Contains(note, "duplicate") || note == "special"
 		d := obs.describe()
@@ -905,7 +970,80 @@ func c16RunSet[K any](kt c16Key[K], r *hx.Rand, rep *hx.Report, sh *hx.Shards, n
 func c16Run[K comparable](kt c16Key[K], r *hx.Rand, rep *hx.Report, sh *hx.Shards, n int, special [][]*Val) {
 	c16RunSet(kt, r, rep, sh, n, special, func(obs *c16Obs, set batchkeyset.BatchKeySet[K], origs []K, replies []c16Reply) {
 		c16ReplyPart(kt, obs, set, origs, replies, rep)
-	})
+	}, func(obs *c16Obs) { c16MapPart(kt, obs, rep) })
+}
+
+var c16Replaying bool
+
+// AddAllMapKeys (BatchUpdate / BatchPartialUpdate take their entities as a map keyed by K): the keys of a Go map are distinct
+// under ==, which for pointer keys (complex keys, record keys, fixed) is pointer identity - two different pointers to equal keys
+// are both in the map and must be rejected as duplicates; when accepted, no id may go out twice.
+func c16MapPart[K comparable](kt c16Key[K], obs *c16Obs, rep *hx.Report) {
+	site := "v2/restli/batchkeyset/set.go:55 AddAllMapKeys"
+	entities := map[K]int{}
+	var mapVals []*Val // the abstract keys of the map (one per map entry)
+	for i, v := range obs.Keys {
+		k := kt.build(v)
+		if _, ok := entities[k]; !ok {
+			mapVals = append(mapVals, v)
+		}
+		entities[k] = i
+	}
+	if kt.ptr && len(entities) != len(obs.Keys) {
+		panic("pointer keys must be distinct map keys")
+	}
+	dup := false
+	for i := range mapVals {
+		for j := 0; j < i; j++ {
+			if kt.keyEq(mapVals[j], mapVals[i]) {
+				dup = true
+			}
+		}
+	}
+	set := batchkeyset.NewBatchKeySet[K]()
+	err := batchkeyset.AddAllMapKeys(set, entities)
+	if kt.ptr {
+		obs.MapAdd = "ok"
+		if err != nil {
+			obs.MapAdd = "error"
+		}
+	}
+	switch {
+	case dup && err == nil:
+		ids, _ := set.EncodeQueryParams()
+		rep.Fail("keyset:map-duplicate-not-rejected", "AddAllMapKeys accepts a map that holds two different (pointer) keys that are equal under key equality: the id is sent twice and one entity gets no result", site, obs.desc(-1), ids)
+	case !dup && err != nil:
+		rep.Fail("keyset:map-distinct-key-rejected", "AddAllMapKeys rejects a map whose keys are pairwise different under key equality", site, obs.desc(-1), err.Error())
+	}
+	if err == nil {
+		ids, e2 := set.EncodeQueryParams()
+		if e2 == nil {
+			var each []string
+			seen := map[string]bool{}
+			twice := false
+			for k := range entities {
+				s, _ := c16EncodeKey(k, false)
+				each = append(each, s)
+			}
+			sort.Strings(each)
+			for i, s := range each {
+				if i > 0 && each[i-1] == s && !strings.Contains(s, "NaN") {
+					twice = true
+				}
+				seen[s] = true
+			}
+			if want := "ids=List(" + strings.Join(each, ",") + ")"; ids != want {
+				rep.Fail("ids:not-each-key-once-sorted", "after AddAllMapKeys the ids parameter is not the sorted list of the individually encoded map keys", site, obs.desc(-1), map[string]string{"got": ids, "want": want})
+			}
+			if twice && !dup {
+				// distinct keys with one encoding: not expected for the family (encodings are injective)
+				rep.Count("ids-equal-encodings-of-distinct-keys")
+			}
+			if twice && dup {
+				rep.Fail("ids:id-sent-twice", "an id is transmitted twice", site, obs.desc(-1), ids)
+			}
+		}
+	}
 }
 
 func c16Header() string {
@@ -959,6 +1097,7 @@ func runC16(cfg *hx.Config) {
 	}
 	if cfg.Replay != "" {
 		special = c16ReplaySpecial(cfg.Replay)
+		c16Replaying = true
 	}
 	c16Run(c16Prim[int32]("int32"), r, rep, sh, n, special["int32"])
 	c16Run(c16Prim[int64]("int64"), r, rep, sh, n, special["int64"])
@@ -972,7 +1111,7 @@ func runC16(cfg *hx.Config) {
 	c16Run(c16Generated[*fam.Fx4]("Fx4", 0), r, rep, sh, n, special["Fx4"])
 	c16Run(c16Generated[*fam.Inner]("Inner", 0), r, rep, sh, n, special["Inner"])
 	c16Run(c16Generated[*fam.CK]("CK", 1), r, rep, sh, 2*n, special["CK"])
-	c16RunSet(c16Prim[[]byte]("bytes"), r, rep, sh, n, special["bytes"], nil)
+	c16RunSet(c16Prim[[]byte]("bytes"), r, rep, sh, n, special["bytes"], nil, nil)
 	sh.Close()
 	rep.Shards = sh.Files
 	rep.Write(cfg.Out)
